@@ -1712,14 +1712,16 @@ class PyCdlib:
 
         self._needs_reshuffle = False
 
-    def _add_child_to_dr(self, child):
-        # type: (dr.DirectoryRecord) -> int
+    def _add_child_to_dr(self, child, continuation=False):
+        # type: (dr.DirectoryRecord, bool) -> int
         """
         An internal method to add a child to a directory record, expanding the
         space in the Volume Descriptor(s) if necessary.
 
         Parameters:
          child - The new child.
+         continuation - Whether this child is the continuation of the previous
+                        record of a very large (multi-extent) file.
         Returns:
          The number of bytes to add for this directory record (this may be zero).
         """
@@ -1734,7 +1736,7 @@ class PyCdlib:
             # given a duplicate child.  However, we allow duplicate children if
             # and only the last child is the same; this represents a very large
             # file.
-            if not child.is_dir():
+            if continuation and not child.is_dir():
                 try_long_entry = True
             else:
                 raise
@@ -3110,7 +3112,8 @@ class PyCdlib:
             self._needs_reshuffle = True
 
     def _add_hard_link_to_inode(self, data_ino, length, file_mode,
-                                boot_catalog_old, **kwargs):
+                                boot_catalog_old, continuation=False,
+                                **kwargs):
         # type: (Optional[inode.Inode], int, int, bool, Optional[str]) -> int
         """
         Add a hard link to the ISO.  Hard links are alternate names for the
@@ -3194,7 +3197,7 @@ class PyCdlib:
                              vd.sequence_number(), rr, rr_name, xa, file_mode,
                              time.time())
 
-            num_bytes_to_add += self._add_child_to_dr(new_rec)
+            num_bytes_to_add += self._add_child_to_dr(new_rec, continuation)
             num_bytes_to_add += self._update_rr_ce_entry(new_rec)
         else:
             if self.udf_root is None:
@@ -3314,6 +3317,7 @@ class PyCdlib:
                 num_bytes_to_add += self._add_hard_link_to_inode(ino, thislen,
                                                                  fmode,
                                                                  eltorito_catalog,
+                                                                 offset > 0,
                                                                  iso_new_path=iso_path,
                                                                  rr_name=rr_name)
 
@@ -3323,6 +3327,7 @@ class PyCdlib:
                 num_bytes_to_add += self._add_hard_link_to_inode(ino, thislen,
                                                                  fmode,
                                                                  eltorito_catalog,
+                                                                 offset > 0,
                                                                  joliet_new_path=joliet_path)
 
             # This goes after the hard link so we only track the new Inode if
